@@ -62,6 +62,21 @@ def bounds_not_aliased(rng, count):
         m = rng.choice([3, 6, 10])
         lo, hi = H.random_box(rng, n)
         la, ha = np.array(lo, dtype=np.double), np.array(hi, dtype=np.double)
+        if _ % 4 == 3:      # the box is moved by assigning the two public attributes, in either order: the curve fills the NEW box
+            shift = rng.choice([3.0, -3.0])
+            lo2, hi2 = [a + shift * (1 + (b - a)) for a, b in zip(lo, hi)], [b + shift * (1 + (b - a)) for a, b in zip(lo, hi)]
+            ev = Evolvent(lo, hi, n, m)
+            if rng.random() < 0.5:
+                ev.lowerBoundOfFloatVariables = np.array(lo2, dtype=np.double); ev.upperBoundOfFloatVariables = np.array(hi2, dtype=np.double)
+            else:
+                ev.upperBoundOfFloatVariables = np.array(hi2, dtype=np.double); ev.lowerBoundOfFloatVariables = np.array(lo2, dtype=np.double)
+            fresh = Evolvent(lo2, hi2, n, m)
+            for x in [rng.random() for _k in range(3)]:
+                a1 = [float(v) for v in ev.GetImage(x)]; a2 = [float(v) for v in fresh.GetImage(x)]
+                if a1 != a2:
+                    fails.append(({'n': n, 'm': m, 'lo': lo, 'hi': hi, 'lo2': lo2, 'hi2': hi2, 'x': x},
+                                  'after the bounds were re-assigned to %r..%r the image of x=%r is %r, a new evolvent of that box gives %r' % (lo2, hi2, x, a1, a2))); break
+            continue
         via_setbounds = rng.random() < 0.5
         if via_setbounds:
             ev = Evolvent([0.0] * n, [1.0] * n, n, m); ev.SetBounds(la, ha)
